@@ -550,3 +550,52 @@ func OneShotNotifyOnce(res *fw.Result, seed int64) error {
 	res.Eval(true, []interface{}{"oneshot-notify-once"})
 	return nil
 }
+
+// CloseOnSilentLink: keepalive and timeout switched off (WithPingInterval(0), WithTimeout(0)), the peer
+// has fallen silent without closing (black hole) — the closer must still return, and the call in flight
+// must come back with an error.
+func CloseOnSilentLink(res *fw.Result, seed int64) error {
+	e, err := scen.NewEnv(seed+33, 0, jsonrpc.WithServerPingInterval(0))
+	if err != nil {
+		return err
+	}
+	defer e.Close()
+	ctx, cancel := context.WithCancel(context.Background())
+	defer cancel()
+	cl, closer, err := e.Client(ctx, jsonrpc.WithPingInterval(0), jsonrpc.WithTimeout(0))
+	if err != nil {
+		return err
+	}
+	sig := "close on a silent link with timeout 0"
+	c := map[string]interface{}{"scenario": "close-on-silent-link"}
+	if v, err := cl.Add(1, 2); err != nil || v != 3 {
+		return fmt.Errorf("harness error: first call failed: %v", err)
+	}
+	tok := nextToks(5)
+	pending := make(chan error, 1)
+	go func() { _, err := cl.Block(ctx, tok); pending <- err }()
+	for w := 0; w < 3000 && e.H.C.Entered(tok) == 0; w++ {
+		time.Sleep(time.Millisecond)
+	}
+	e.PX.Cut(0, "blackhole")
+	time.Sleep(5 * time.Millisecond)
+	closed := make(chan struct{})
+	go func() { closer(); close(closed) }()
+	select {
+	case <-closed:
+	case <-time.After(5 * time.Second):
+		res.Add(fw.Finding{Kind: "monitor", Signature: sig + " closer hangs", Detail: "the closer did not return within 5s on a link whose peer is silent (no timeout configured)", Case: c})
+	}
+	select {
+	case err := <-pending:
+		if err == nil {
+			res.Add(fw.Finding{Kind: "monitor", Signature: sig + " pending call succeeds", Detail: "the call in flight returned a result although the peer was silent", Case: c})
+		}
+	case <-time.After(3 * time.Second):
+		res.Add(fw.Finding{Kind: "monitor", Signature: sig + " pending call blocked", Detail: "the call in flight has not returned 3s after the closer was invoked", Case: c})
+	}
+	e.H.C.Release(tok)
+	res.Count("close-on-silent-link")
+	res.Eval(true, []interface{}{"close-on-silent-link"})
+	return nil
+}
